@@ -24,8 +24,9 @@ const schemaA = `{"$schema":"http://json-schema.org/draft-07/schema#","$ref":"#/
 }}`
 
 const schemaB = `{"$schema":"http://json-schema.org/draft-07/schema#","$ref":"#/definitions/B","definitions":{
- "B":{"type":"object","properties":{"x":{"type":"string"},"items":{"type":"array","items":{"oneOf":[{"type":"string"},{"type":"boolean"}]}},"either":{"oneOf":[{"type":"string"},{"type":"integer"}]},"others":{"type":"array","items":{"oneOf":[{"type":"string"},{"type":"integer"}]}},"nested":{"type":"object","properties":{"deep":{"type":"string","enum":["u","v"]}}}}},
- "D1":{"type":"integer","const":1},"D2":{"type":"integer","const":2}
+ "B":{"type":"object","properties":{"x":{"type":"string"},"ei":{"$ref":"#/definitions/Either"},"items":{"type":"array","items":{"oneOf":[{"type":"string"},{"type":"boolean"}]}},"either":{"oneOf":[{"type":"string"},{"type":"integer"}]},"others":{"type":"array","items":{"oneOf":[{"type":"string"},{"type":"integer"}]}},"nested":{"type":"object","properties":{"deep":{"type":"string","enum":["u","v"]}}}}},
+ "D1":{"type":"integer","const":1},"D2":{"type":"integer","const":2},
+ "Either":{"oneOf":[{"type":"string"},{"type":"integer"}]}
 }}`
 
 const openapiDoc = `{"openapi":"3.0.0","info":{"title":"t","version":"1"},"paths":{},"components":{"schemas":{
@@ -51,6 +52,25 @@ const passes = `passes:
       to: Bee
   - fields_set_not_required:
       fields: [alpha.A.pet]
+  - hint_object:
+      object: beta.Either
+      hints:
+        e_one: 1
+        e_two: two
+        e_three: [3]
+`
+
+const veneersBeta = `language: all
+package: beta
+builders:
+  - add_factory:
+      by_name: Bee
+      factory:
+        name: Buzz
+        options:
+          - name: x
+            parameters:
+              - constant: {type: {kind: scalar, scalar: {scalar_kind: string}}, value: buzz}
 `
 
 const veneers = `language: all
@@ -64,6 +84,14 @@ builders:
       set:
         - name: extra
           type: {kind: scalar, scalar: {scalar_kind: string}}
+  - add_factory:
+      by_name: Dog
+      factory:
+        name: Rex
+        options:
+          - name: name
+            parameters:
+              - constant: {type: {kind: scalar, scalar: {scalar_kind: string}}, value: rex}
 options:
   - rename:
       by_name: Dog.name
@@ -132,12 +160,15 @@ output:
     - go: {package_root: gen, generate_json_marshaller: true, generate_validate: true}
     - python: {}
     - php: {namespace_root: Ex}
+    - typescript: {}
+    - java: {package_path: com.example}
 `,
 		}},
 		{Name: "transforms", Files: map[string]string{
 			"in/a.json": schemaA, "in/b.json": schemaB,
 			"passes/common.yaml":  passes,
 			"veneers/alpha.yaml":  veneers,
+			"veneers/beta.yaml":   veneersBeta,
 			"pipeline.yaml": `parameters:
   out: './out'
   root: 'gen'
